@@ -623,4 +623,66 @@ theorem nextTurn_comm (s : St) (node node' : String) (h : node ≠ node') :
       intro x _
       exact Bool.and_comm _ _
 
+/-! ## first come, first served over two successive returns -/
+
+theorem filter_ne_of_not_mem (l : List Tok) (w : Tok) (h : w ∉ l) : l.filter (· != w) = l := by
+  rw [List.filter_eq_self]
+  intro x hx
+  have : x ≠ w := fun e => h (e ▸ hx)
+  simpa using this
+
+theorem find_none_of_forall (l : List Tok) (node : String) (h : ∀ y ∈ l, y.node ≠ node) :
+    l.find? (·.node == node) = none := by
+  rw [List.find?_eq_none]
+  intro x hx
+  simpa using h x hx
+
+theorem nextTurn_parked_of_find (s : St) (node : String) (out : List Tok) (w : Tok)
+    (h : s.parked.find? (·.node == node) = some w) : (nextTurn s node out).2.parked = s.parked.filter (· != w) := by
+  unfold nextTurn; rw [h]
+
+/-- FIRST COME, FIRST SERVED over two successive returns at one node: with `w` the longest and `v` the second longest
+waiting token at `node`, the first return hands over to `w`, the second to `v`, and everybody else keeps waiting in
+order — for every waiting list of that shape (any number of tokens of other nodes in between) -/
+theorem nextTurn_twice (s : St) (node : String) (before mid after : List Tok) (w v : Tok)
+    (hs : s.parked = before ++ w :: (mid ++ v :: after)) (hn : s.parked.Nodup)
+    (hw : w.node = node) (hv : v.node = node)
+    (hb : ∀ y ∈ before, y.node ≠ node) (hm : ∀ y ∈ mid, y.node ≠ node) :
+    (nextTurn s node []).1 = [w] ∧
+    (nextTurn (nextTurn s node []).2 node []).1 = [v] ∧
+    (nextTurn (nextTurn s node []).2 node []).2.parked = before ++ mid ++ after := by
+  rw [hs] at hn
+  have hn1 := List.nodup_append.mp hn
+  have hn2 := List.nodup_cons.mp hn1.2.1
+  have hn3 := List.nodup_append.mp hn2.2
+  have hn4 := List.nodup_cons.mp hn3.2.1
+  have hwb : w ∉ before := fun h => hn1.2.2 w h w (List.mem_cons_self) rfl
+  have hvb : v ∉ before := fun h => hn1.2.2 v h v (by simp) rfl
+  have hvm : v ∉ mid := fun h => hn3.2.2 v h v (List.mem_cons_self) rfl
+  have hwrest : w ∉ mid ++ v :: after := hn2.1
+  have hva : v ∉ after := hn4.1
+  have hwn : (w.node == node) = true := by simpa using hw
+  have hvn : (v.node == node) = true := by simpa using hv
+  have f1 : s.parked.find? (·.node == node) = some w := by
+    rw [hs, List.find?_append, find_none_of_forall before node hb]
+    simp [hwn]
+  have p1 : (nextTurn s node []).2.parked = before ++ (mid ++ v :: after) := by
+    rw [nextTurn_parked_of_find s node [] w f1, hs, List.filter_append, List.filter_cons]
+    have : (w != w) = false := by simp
+    simp only [this, Bool.false_eq_true, if_false]
+    rw [filter_ne_of_not_mem before w hwb, filter_ne_of_not_mem _ w hwrest]
+  have f2 : (nextTurn s node []).2.parked.find? (·.node == node) = some v := by
+    rw [p1, List.find?_append, find_none_of_forall before node hb, List.find?_append,
+      find_none_of_forall mid node hm]
+    simp [hvn]
+  refine ⟨by simp [nextTurn_fst, f1], by simp [nextTurn_fst, f2], ?_⟩
+  rw [nextTurn_parked_of_find _ node [] v f2, p1]
+  have : (v != v) = false := by simp
+  simp only [List.filter_append, List.filter_cons, this, Bool.false_eq_true, if_false]
+  rw [filter_ne_of_not_mem before v hvb, filter_ne_of_not_mem mid v hvm, filter_ne_of_not_mem after v hva]
+  simp
+
+/-- the shape is inhabited: two tokens wait at `U`, one of another node between them -/
+example : (nextTurn { vars := [], parked := [⟨1, "X"⟩, ⟨2, "U"⟩, ⟨3, "Y"⟩, ⟨4, "U"⟩, ⟨5, "X"⟩] } "U" []).1 = [⟨2, "U"⟩] := by decide
+
 end Bpmn.Props.C12Turns
